@@ -237,6 +237,40 @@ def produce_independent(kind, scope_name, k, payload_len=5, target_num=1):
     return bp7.write_bundle(bun['primary'], blocks), (tgt['data'] if target_num != 1 else pay)
 
 
+def produce_independent_multi(kind, layout, k, payload_len=5):
+    ''' Two security operations of the same kind over the extension block 5 and the payload (in that order), by
+    the independent implementation: layout 'one_block' = one security block with two targets,
+    'two_blocks' = two security blocks (as from two security sources) with one target each. '''
+    octets, pay = base_bundle(k, payload_len, target_ext=True)
+    bun = bp7.read_bundle(octets)
+    sec_type = 11 if kind == 'mac0' else 12
+    blocks = [dict(b) for b in bun['blocks']]
+    groups = [[5, 1]] if layout == 'one_block' else [[5], [1]]
+    new_blocks = []
+    for (gi, targets) in enumerate(groups):
+        sec_block = {'type': sec_type, 'num': 9 + gi, 'flags': 0, 'crc_type': 0, 'data': b''}
+        asb = {'params': {}, 'source_raw': bp7.text_to_eid(SRC_NODE)}
+        results = []
+        for tnum in targets:
+            tgt = [b for b in bun['blocks'] if b['num'] == tnum][0]
+            aad = cose.external_aad(octets, bun, sec_block, asb, tgt)
+            if kind == 'mac0':
+                msg = cose.mac0_message(KEYS['mac'], 5, KID['mac'], aad, tgt['data'])
+                results.append([(cose.TAG_MAC0, msg)])
+            else:
+                msg, ct = cose.enc0_message(KEYS['enc'], 1, KID['enc'], b'IV-multi-%03d' % (tnum + 10 * gi), aad,
+                                            tgt['data'])
+                results.append([(cose.TAG_ENC0, msg)])
+                for b in blocks:
+                    if b['num'] == tnum:
+                        b['data'] = ct
+        sec_block['data'] = cose.write_asb(targets, cose.CTX_COSE, SRC_NODE, [], results)
+        new_blocks.append(sec_block)
+    for sb in new_blocks:
+        blocks.insert(len(blocks) - 1, sb)
+    return bp7.write_bundle(bun['primary'], blocks), pay
+
+
 # ---------------------------------------------------------------------------- alterations
 def _rewrite(bun, primary=None, blocks=None):
     return bp7.write_bundle(primary or bun['primary'], blocks if blocks is not None else bun['blocks'])
@@ -430,12 +464,27 @@ def cover_cases(tier, seed, kinds):
             plan.append(('indep', kind, scope_name, 'none', 'wrong', 1))
             plan.append(('indep', kind, scope_name, 'tgt.num', 'right', 5))
             plan.append(('indep', kind, scope_name, 'tgt.type', 'right', 5))
+    # several operations in one bundle: one security block with two targets, and two security blocks; the
+    # alteration hits the first or the last target (what one operation finds must not be lost by the next)
+    multi = []
+    for kind in [x for x in kinds if x in ('mac0', 'enc0')]:
+        for layout in ('one_block', 'two_blocks'):
+            for tnum in (5, 1):
+                for cls in ('none', 'tgt.data', 'tgt.flags', 'tgt.crc'):
+                    for acc in (False, True):
+                        multi.append(('multi', kind, layout, cls, 'right', tnum, acc))
+            multi.append(('multi', kind, layout, 'none', 'wrong', 1, True))
+    for kind in [x for x in kinds if x in ('mac0', 'sign1', 'enc0', 'encwrap')]:
+        for tnum in (5, 1):
+            for cls in ('none', 'tgt.data', 'tgt.flags'):
+                multi.append(('repo2', kind, 'default', cls, 'right', tnum, tnum == 1))
     if tier == 'quick' and len(plan) > 420:
         must = [p for p in plan if p[3] == 'none' or p[0] == 'repo']
         rest = [p for p in plan if p not in must]
         plan = must + rnd.sample(rest, max(0, 420 - len(must)))
+    plan = [p + (None,) for p in plan] + multi
     lens = [0, 1, 5, 15, 16, 17, 1000]
-    for (producer, kind, scope_name, cls, keymode, target_num) in plan:
+    for (producer, kind, scope_name, cls, keymode, target_num, force_accept) in plan:
         k += 1
         plen = lens[k % len(lens)] if kind in CONF_KINDS or cls == 'none' else 5
         try:
@@ -443,6 +492,13 @@ def cover_cases(tier, seed, kinds):
                 ttypes = (1,) if target_num == 1 else (193,)
                 octets, plain = produce_by_repo(kind, k % 3, plen, ttypes)
                 scope = SCOPES['default']
+            elif producer == 'repo2':
+                # one security block over the extension block and the payload, produced by the real source agent
+                octets, plain = produce_by_repo(kind, k % 3, plen, (193, 1))
+                scope = SCOPES['default']
+            elif producer == 'multi':
+                octets, plain = produce_independent_multi(kind, scope_name, k % 3, plen)
+                scope = SCOPES['absent']
             else:
                 octets, plain = produce_independent(kind, scope_name, k % 3, plen, target_num)
                 scope = SCOPES[scope_name]
@@ -451,7 +507,7 @@ def cover_cases(tier, seed, kinds):
         mutated = alter(octets, cls, target_num)
         if mutated is None:
             continue
-        accept = bool(k % 2)
+        accept = bool(k % 2) if force_accept is None else force_accept
         keys = {KID[n]: (KEYS if keymode == 'right' else WRONG)[n] for n in KEYS} if keymode != 'absent' else {}
         indep = cose.verify_bundle(mutated, keys)
         conf = kind in CONF_KINDS
@@ -459,7 +515,11 @@ def cover_cases(tier, seed, kinds):
         if conf:
             wbun = bp7.read_bundle(octets)
             wire_is_plain = [b for b in wbun['blocks'] if b['num'] == target_num][0]['data'] == plain and len(plain) > 0
-        trace, res = receive(mutated, keymode, accept, sec='unknown', plain='', nsec=1)
+        try:
+            nsec = sum(1 for b in bp7.read_bundle(mutated)['blocks'] if b['type'] in (11, 12))
+        except bp7.Malformed:
+            nsec = 1
+        trace, res = receive(mutated, keymode, accept, sec='unknown', plain='', nsec=nsec)
         # for the BP-level trace (C12) the generator's knowledge of the verdict is the independent one where
         # available, otherwise "good" exactly for the unaltered bundle with the right key
         events.append({'a': 'Case', 'producer': producer, 'kind': kind, 'scope': scope_record(scope), 'cls': cls,
